@@ -857,3 +857,152 @@ Proof.
   intros ops frs opname max fuel op ts Hnd Hop Hexp Hok Hfuel Hmax.
   eexists. eexists. split; [apply (cost_exact C dc ctx0 ops frs opname max fuel op ts); assumption|lia].
 Qed.
+
+(** ** 12. Validated documents have an expansion (the hypothesis [Expand ...] of the main theorems is
+    met by every document that satisfies the static rules the validator enforces) *)
+Section Exists.
+  Variable C : Type.
+  Variable dc : fcost C.
+  Variable frs : list (bytes * node C).
+
+  (** the fragment names spread anywhere below a node *)
+  Fixpoint spreads (n : node C) : list bytes :=
+    match n with
+    | Node k kids => (match k with KSpread name => [name] | _ => [] end) ++ flat_map spreads kids
+    end.
+
+  (** what the validator establishes node by node: fields exist (or are [__typename]), their
+      arguments coerce, spread fragments are defined; and cost functions return *)
+  Fixpoint locally_ok (n : node C) : Prop :=
+    match n with
+    | Node k kids =>
+        match k with
+        | KField (Some f) false => forall ctx, f ctx <> None
+        | KField None false => True
+        | KField _ true => False
+        | KFieldNoDef is_typename => is_typename = true
+        | KSpread name => find_fragment frs name <> None
+        | KOther => True
+        end /\
+        (fix all (l : list (node C)) : Prop := match l with [] => True | x :: r => locally_ok x /\ all r end) kids
+    end.
+
+  (** "fragment spreads must not form cycles": some ranking of the fragment names decreases along
+      every spread inside a fragment definition *)
+  Definition validated (rank : bytes -> nat) : Prop :=
+    forall name def, find_fragment frs name = Some def ->
+      locally_ok def /\ forall s, In s (spreads def) -> (rank s < rank name)%nat.
+
+  Lemma locally_ok_kids k kids : locally_ok (Node k kids) -> Forall locally_ok kids.
+  Proof.
+    cbn [locally_ok]. intros [_ H]. induction kids as [|x l IH]; [constructor|].
+    destruct H as [Hx Hl]. constructor; [exact Hx|apply IH; exact Hl].
+  Qed.
+
+  Lemma spreads_kid k kids x s : In x kids -> In s (spreads x) -> In s (spreads (Node k kids)).
+  Proof.
+    intros Hx Hs. cbn [spreads]. apply in_or_app. right. apply in_flat_map. exists x. split; assumption.
+  Qed.
+
+  Lemma expand_exists_gen rank : validated rank ->
+    forall k n path ctx,
+      locally_ok n ->
+      (forall s, In s (spreads n) -> (rank s < k)%nat) ->
+      (forall q, In q path -> (k <= rank q)%nat) ->
+      exists ts, Expand dc frs path ctx n ts.
+  Proof.
+    intros Hval k. induction k as [k IHk] using lt_wf_ind.
+    intros n. induction n as [kd kids IH] using node_ind'.
+    intros path ctx Hok Hsp Hpath.
+    (* the children, under any context *)
+    assert (HL : forall ctx', exists ts, ExpandL dc frs path ctx' kids ts).
+    { intros ctx'. pose proof (locally_ok_kids kd kids Hok) as Hkids.
+      assert (Hsp' : forall x, In x kids -> forall s, In s (spreads x) -> (rank s < k)%nat).
+      { intros x Hx s Hs. apply Hsp. eapply spreads_kid; eassumption. }
+      clear Hok Hsp.
+      induction IH as [|x l Hx Hl IHl]; [exists []; constructor|].
+      inversion Hkids as [|? ? Hkx Hkl]; subst.
+      destruct (Hx path ctx' Hkx (Hsp' x (or_introl eq_refl)) Hpath) as [ts1 H1].
+      destruct (IHl Hkl) as [ts2 H2]; [intros y Hy; apply Hsp'; right; exact Hy|].
+      exists (ts1 ++ ts2). constructor; assumption. }
+    destruct kd as [cost [|]|tn|name|].
+    - cbn [locally_ok] in Hok. destruct cost; destruct Hok as [[] _].
+    - destruct cost as [f|].
+      + destruct Hok as [Hf _]. destruct (f ctx) as [fc|] eqn:Efc; [|exfalso; exact (Hf ctx Efc)].
+        destruct (HL (next_ctx fc ctx)) as [ts Hts]. eexists. apply X_field; [exact Efc|exact Hts].
+      + destruct (HL (next_ctx dc ctx)) as [ts Hts]. eexists. apply X_field; [reflexivity|exact Hts].
+    - destruct Hok as [Htn _]. subst tn. destruct (HL ctx) as [ts Hts]. eexists. apply X_typename. exact Hts.
+    - destruct Hok as [Hdef _].
+      destruct (find_fragment frs name) as [def|] eqn:Ef; [|exfalso; apply Hdef; reflexivity].
+      assert (Hrank : (rank name < k)%nat) by (apply Hsp; cbn [spreads]; left; reflexivity).
+      assert (Hnotin : ~ In name path) by (intros Hin; specialize (Hpath name Hin); lia).
+      destruct (Hval name def Ef) as [Hdok Hdsp].
+      destruct (IHk (rank name) Hrank def (name :: path) ctx Hdok Hdsp) as [ts1 H1].
+      { intros q [Hq|Hq]; [subst q; lia|specialize (Hpath q Hq); lia]. }
+      destruct (HL ctx) as [ts2 H2].
+      exists (ts1 ++ ts2). eapply X_spread; eassumption.
+    - destruct (HL ctx) as [ts Hts]. exists ts. apply X_other. exact Hts.
+  Qed.
+
+  Theorem expand_exists rank : validated rank ->
+    forall op ctx, locally_ok op -> exists ts, Expand dc frs [] ctx op ts.
+  Proof.
+    intros Hval op ctx Hok.
+    set (k := S (fold_right Nat.max 0%nat (map rank (spreads op)))).
+    apply (expand_exists_gen rank Hval k op [] ctx Hok).
+    - intros s Hs. unfold k.
+      assert (forall l, In s l -> (rank s <= fold_right Nat.max 0 (map rank l))%nat) as Hmax.
+      { induction l as [|y l IHl]; intros Hin; [destruct Hin|].
+        cbn [map fold_right]. destruct Hin as [Hy|Hy]; [subst y; lia|specialize (IHl Hy); lia]. }
+      specialize (Hmax _ Hs). lia.
+    - intros q [].
+  Qed.
+End Exists.
+
+(** ** 13. The expansion is unique: "the" reference cost of a document is well defined *)
+Section Functional.
+  Variable C : Type.
+  Variable dc : fcost C.
+  Variable frs : list (bytes * node C).
+
+  Lemma expand_functional :
+    (forall path ctx n ts, Expand dc frs path ctx n ts -> forall ts', Expand dc frs path ctx n ts' -> ts = ts') /\
+    (forall path ctx l ts, ExpandL dc frs path ctx l ts -> forall ts', ExpandL dc frs path ctx l ts' -> ts = ts').
+  Proof.
+    apply Expand_mutind.
+    - intros path ctx kids ts _ IH ts' H. inversion H; subst. apply IH; assumption.
+    - intros path ctx kids ts _ IH ts' H. inversion H; subst. f_equal. f_equal. apply IH; assumption.
+    - intros path ctx cost fc kids ts Hfc _ IH ts' H. inversion H as [| |? ? ? fc' ? ts0 Hfc' Hk|]; subst.
+      rewrite Hfc in Hfc'. inversion Hfc'; subst fc'. f_equal. f_equal. apply IH; assumption.
+    - intros path ctx name kids def ts ts2 Hnotin Hfind _ IHd _ IHk ts' H.
+      inversion H as [| | |? ? ? ? def' tsa tsb Hn' Hfind' Hd' Hk']; subst.
+      rewrite Hfind in Hfind'. inversion Hfind'; subst def'.
+      f_equal; [apply IHd|apply IHk]; assumption.
+    - intros path ctx ts' H. inversion H; subst. reflexivity.
+    - intros path ctx n l ts ts2 _ IHn _ IHl ts' H. inversion H; subst.
+      f_equal; [apply IHn|apply IHl]; assumption.
+  Qed.
+End Functional.
+
+(** ** 14. The main statement for validated documents, without mentioning the expansion relation in
+    the hypotheses *)
+Theorem cost_exact_validated (C : Type) (dc : fcost C) (ctx0 : C) :
+  forall ops frs opname max fuel op rank,
+    NoDup (map fst frs) ->
+    get_operation ops opname = Some op ->
+    validated C frs rank -> locally_ok C frs op ->
+    (length frs < fuel)%nat ->
+    max <= MaxInt ->
+    exists ts,
+      Expand dc frs [] ctx0 op ts /\
+      (forall ts', Expand dc frs [] ctx0 op ts' -> ts' = ts) /\
+      (forallb costs_ok ts = true ->
+       validate_cost C true fuel dc ctx0 ops frs opname false max
+       = Done (Z.min (RefCost ts) MaxInt) ((max >=? 0) && (RefCost ts >? max))).
+Proof.
+  intros ops frs opname max fuel op rank Hnd Hop Hval Hok Hfuel Hmax.
+  destruct (expand_exists C dc frs rank Hval op ctx0 Hok) as [ts Hts].
+  exists ts. split; [exact Hts|]. split.
+  - intros ts' H'. symmetry. exact (proj1 (expand_functional C dc frs) [] ctx0 op ts Hts ts' H').
+  - intros Hc. apply (cost_exact C dc ctx0 ops frs opname max fuel op ts); assumption.
+Qed.
